@@ -311,6 +311,27 @@ class Engine:
         """Convert v to type ty (Optional injection/projection)."""
         if v.ty == ty:
             return v
+        if isinstance(ty, StrT) and isinstance(v.ty, IntT):
+            # an int kept in a string-typed slot (python lists are heterogeneous): constants are the reserved codes "\x00int:<n>", symbolic ints go
+            # through the injective uninterpreted int_code with inverse code_int
+            self.assumptions_used.add("an int stored in a string-typed container is represented by a reserved string code (constants: \\x00int:<n>; symbolic: int_code / code_int)")
+            iv = z3.simplify(v.t)
+            if z3.is_int_value(iv):
+                return Val(z3.IntVal(str_code("\x00int:%d" % iv.as_long())), STR)
+            f_ = self.uf("int_code", [INT], STR)
+            st.assume(self.uf("code_int", [STR], INT)(f_(v.t)) == v.t)
+            return Val(f_(v.t), STR)
+        if isinstance(ty, IntT) and isinstance(v.ty, StrT) and what.startswith("argument "):
+            # reading such a slot back where an int is expected (a parameter declared int): exact when the slot was written by the rule above
+            self.assumptions_used.add("a string-typed slot passed where an int parameter is expected is read back through code_int (exact for slots written as int_code(n))")
+            return Val(self.uf("code_int", [STR], INT)(v.t), INT)
+        if isinstance(ty, ListT) and isinstance(ty.elt, StrT) and isinstance(v.ty, ListT) and isinstance(v.ty.elt, IntT):
+            ln = z3.simplify(v.ty.len(v.t))
+            if z3.is_int_value(ln) and ln.as_long() <= 4:
+                arr = ty.arr(ty.empty())
+                for i_ in range(ln.as_long()):
+                    arr = z3.Store(arr, i_, self.coerce(Val(z3.simplify(z3.Select(v.ty.arr(v.t), i_)), INT), STR, st, node, what).t)
+                return Val(ty.mk(arr, ln), ty)
         if isinstance(ty, OptT):
             if isinstance(v.ty, NoneT) and ty.kind == "none":
                 return Val(ty.none(), ty)
@@ -717,6 +738,9 @@ class Engine:
         if isinstance(n.slice, ast.Slice):
             if isinstance(ty, StrT) and n.slice.step is None and n.slice.upper is None and isinstance(n.slice.lower, ast.Constant) and n.slice.lower.value == 1:
                 return Val(self.uf("str_tail", [STR], STR)(base.t), STR)
+            if isinstance(ty, StrT) and n.slice.step is None and n.slice.lower is None and ast.unparse(n.slice.upper) == "-1":
+                self.assumptions_used.add("s[:-1] on an identity string is the uninterpreted function str_drop_last")
+                return Val(self.uf("str_drop_last", [STR], STR)(base.t), STR)
             if isinstance(ty, StrT) and n.slice.step is None:
                 # s[:k] / s[k:] with a constant k: uninterpreted prefix / suffix functions with the law s[:k] + s[k:] == s
                 lo, hi = n.slice.lower, n.slice.upper
@@ -1024,6 +1048,24 @@ class Engine:
             names_rest = names[1:]
         else:
             names_rest = names
+        if any(isinstance(a, ast.Starred) for a in pos):
+            # f(*lst, more...): the list is spread over as many positional parameters as remain for it; calling with a list of another
+            # length is a TypeError (safety obligation)
+            if not (isinstance(pos[0], ast.Starred) and not any(isinstance(a, ast.Starred) for a in pos[1:])):
+                raise Unsupported("star-argument form at line %s" % n.lineno)
+            lst = self.ev(pos[0].value, st)
+            if not isinstance(lst.ty, ListT):
+                raise Unsupported("star-argument of %s at line %s" % (lst.ty, n.lineno))
+            k_star = len(names_rest) - (len(pos) - 1) - len([kw for kw in n.keywords if kw.arg in con.params])
+            if k_star < 0:
+                raise Unsupported("star-argument arity at line %s" % n.lineno)
+            self.may_raise(st, "TypeError", lst.ty.len(lst.t) != k_star, "f(*list): wrong number of positional arguments", n)
+            for i_ in range(k_star):
+                argvals[names_rest[i_]] = Val(z3.Select(lst.ty.arr(lst.t), i_), lst.ty.elt)
+            for name, a in zip(names_rest[k_star:], pos[1:]):
+                argvals[name] = self.ev(a, st)
+                exprs[name] = a
+            pos = []
         for name, a in zip(names_rest, pos):
             argvals[name] = self.ev(a, st)
             exprs[name] = a
@@ -1090,7 +1132,9 @@ class Engine:
         subp = SpecEnv(self, con, post_env, old=argvals, result=res)
         for k, e in con.ensures.items():
             f = subp.ev_bool(e["expr"] if isinstance(e, dict) else e, st)
-            st.assume(f if not self.guards else z3.Implies(z3.And(*self.guards), f))
+            f = f if not self.guards else z3.Implies(z3.And(*self.guards), f)
+            st.assume(f)
+            st.named["%s:%s" % (con.func, k)] = f  # the callee's postcondition at its latest call on this path, as a named fact
         for e in con.post_hints:
             st.assume(subp.ev_bool(e, st))
         if con.trusted:
@@ -1414,7 +1458,8 @@ class Engine:
         if isinstance(tgt, ast.Name):
             self.alias_of.pop(tgt.id, None)
             self.escaped.discard(tgt.id)
-            if isinstance(valnode, (ast.Subscript, ast.Attribute)):
+            if isinstance(valnode, (ast.Subscript, ast.Attribute)) and not (isinstance(valnode, ast.Subscript) and isinstance(valnode.slice, ast.Slice)):
+                # (a slice x[a:b] builds a new list / string: not an alias of the sub-object)
                 self.alias_derived.add(tgt.id)
             else:
                 self.alias_derived.discard(tgt.id)
